@@ -15,6 +15,9 @@ CLAIMED = {
  "C03": ("proptest: near-miss candidates (same-kind nodes, scoped tree mutations) vs. O-align, an independent existential legal-alignment relation (reference model), at all strictness levels",
          "Randomised exploration: hundreds of thousands of (pattern, candidate, strictness) triples per run; every reported match must have a legal alignment under the documented strictness table, and the reported match length must stay inside the node and on a token boundary.",
          "Trusted: the pattern tree as parsed by ast-grep (matching is independent); O-align is deliberately at least as permissive as documentation + documented tests, so only soundness is claimed.", "DESIGN.md §5 C03"),
+ "C04": ("proptest: variable-sharing rule trees (random + dictionary scenarios with generated candidate order) vs. a clean-attempt reference evaluator (differential), plus an independent alignment check of reported bindings (O-align with environment)",
+         "Randomised exploration: ~2x10^4 (quick) to 6x10^5 (thorough) rules sharing the variable pool {A,B,C} across all/any/not/relational/matches/nthChild.ofRule/constraints and global utilities, evaluated on every node; verdict and exposed bindings must equal the reference in which every alternative is attempted on a copy of the environment; each pattern leaf of the winning derivation must admit an alignment consistent with the reported bindings.",
+         "Trusted: Pattern matching of a single leaf given an explicit environment (rebuilt through the public MetaVarEnv API); structural identity is judged by an at-least-as-permissive relation; variables only beneath `not` are compared through the verdict only.", "DESIGN.md §5 C04"),
  "C05": ("proptest: generated rule trees x generated sources, evaluated on every node by the implementation and by O-eval, an independent reference evaluator over raw tree-sitter nodes (differential against a reference model)",
          "Randomised exploration: ~10^4 (quick) to 3x10^5 (thorough) generated rule trees over all operators, stopBy kinds, field, An+B/reverse/ofRule, utilities and multi-key objects, each compared with the reference on every node of a small source; disagreements are localised to the smallest disagreeing sub-rule.",
          "Trusted: pattern leaves (delegated to Pattern, decided by C02/C03), regex crate, tree-sitter navigation primitives parent/child(i)/next_sibling/child_by_field_name.", "DESIGN.md §5 C05"),
